@@ -13,7 +13,9 @@ sys.path.insert(0, C.HARNESS)
 import scan          # noqa: E402
 import gen_battery   # noqa: E402
 import qgen          # noqa: E402
+import units as unitsmod  # noqa: E402
 
+UNIT_FACTORS = (1000, 60, 10000, 1000000)
 ACT_NEEDS = {'Add': 'add', 'Sub': 'sub', 'MulN': 'muln', 'NMul': 'nmul', 'DivN': 'divn', 'Ratio': 'ratio', 'AddEq': 'addeq',
              'SubEq': 'subeq', 'MulEq': 'muleq', 'DivEq': 'diveq', 'SetValue': 'set', 'MutableWrite': 'mutable', 'Zero': 'zero'}
 PATTERNS = {   # must equal MC_Store.tla P1..P9
@@ -27,7 +29,7 @@ PATTERNS = {   # must equal MC_Store.tla P1..P9
 
 def build():
     qs = scan.scan_quantities()
-    parts, ks = gen_battery.sources(qs)
+    parts, ks = gen_battery.sources(qs, unitpick=unitsmod.integer_factor_units(scan.scan_units()))
     srcs = [C.gen_file(n, t) for n, t in parts]
     exe = C.compile_cxx('battery', srcs, flags=['-std=c++17', '-O1', '-fno-fast-math', '-ffp-contract=off', '-w'], timeout=3400)
     return exe, qs, ks
@@ -48,14 +50,15 @@ def parse_behaviours(out):
 def generate_behaviours(num, depth=12):
     """TLC -simulate on Store.tla for each shape and capability set -> list of (ncomp, behaviour)"""
     jobs = [(n, caps) for n in (1, 2, 3, 6, 9) for caps in ('AllCaps', 'AffineCaps')]
+    jobs += [(n, f'F{F}') for n in (1, 2, 3, 6, 9) for F in UNIT_FACTORS]
     results = {}
 
     def one(j):
         n, caps = j
-        res = C.run_tlc('MC_Store', f'Sim_Store_{n}_{caps}.cfg', workers=2, simulate=num, depth=depth + 2, timeout=900,
+        res = C.run_tlc('MC_Store', f'Sim_Store_{n}_{caps}.cfg', workers=2, simulate=(num if not caps.startswith('F') else max(20, num // 5)), depth=depth + 2, timeout=900,
                         extra=['-seed', str(C.SEED % 100000 + n)])
         return j, res
-    with cf.ThreadPoolExecutor(5) as ex:
+    with cf.ThreadPoolExecutor(8) as ex:
         for j, res in ex.map(one, jobs):
             results[j] = res
     allb = []
@@ -63,7 +66,8 @@ def generate_behaviours(num, depth=12):
     for (n, caps), res in sorted(results.items()):
         bs = parse_behaviours(res.out)
         stats.append({'ncomp': n, 'caps': caps, 'behaviours': len(bs), 'states_generated': res.generated})
-        allb += [(n, b) for b in bs]
+        F = int(caps[1:]) if caps.startswith('F') else 0
+        allb += [(n, F, b) for b in bs]
     return allb, stats, results
 
 
@@ -74,9 +78,9 @@ def write_suite(path, behaviours):
         for n, pats in PATTERNS.items():
             for p in pats:
                 f.write(f'P {n} {cs(p)}\n')
-        for n, b in behaviours:
+        for n, F, b in behaviours:
             needs = sorted({ACT_NEEDS[s['act']] for s in b if s['act'] in ACT_NEEDS})
-            f.write(f'B {n} ' + ' '.join(needs) + '\n')
+            f.write(f'B {n} {F} ' + ' '.join(needs) + '\n')
             for s in b:
                 st = s['st']
                 regs = ' '.join((cs(st[r]) if st[r] else 'U') for r in ('r1', 'r2', 'r3'))
